@@ -1243,7 +1243,7 @@ fn pattern_sets(orc: &Oracle, rng: &mut Rng, idx: usize, mode: Mode) -> Vec<(u8,
 }
 
 fn deep_depths(tier: &str) -> Vec<usize> {
-    let mut v = vec![4, 8, 9, 10, 12, 16];
+    let mut v = vec![4, 8, 9, 10, 12, 16, 33, 40];
     if tier == "thorough" {
         v.extend([24, 32, 48]);
     }
